@@ -1,7 +1,7 @@
 #!/bin/bash
 # confirm every delivered seeded change that has no confirmation log yet
 for d in /tmp/wt/out/C*/m*; do
-  [ -f "$d/patch.diff" ] && [ -f "$d/demo.py" ] || continue
+  [ -f "$d/patch.diff" ] && [ -f "$d/demo.py" ] && [ -f "$d/notes.md" ] || continue
   [ -f "$d/confirm.log" ] && continue
   id=$(basename $(dirname $d)); k=$(basename $d); k=${k#m}
   python3 /verif/tools/confirm_seeded.py $id $k $d > $d/confirm.log 2>&1
